@@ -739,6 +739,11 @@ func runC05(r *Run) {
 		}
 	}
 
+	// ---------- entries that came in through a dump (restart, /load_dump): see c05reload.go
+	for i, n := 0, r.N(400, 8000); i < n; i++ {
+		r.runReload05(i)
+	}
+
 	// ---------- replies post-processed (TTL rewrites) after the cache plugin returned: see c05post.go
 	for i, n := 0, r.N(200, 4000); i < n; i++ {
 		r.runPost05(i)
@@ -874,5 +879,5 @@ func runC05(r *Run) {
 	for _, x := range lazyRes {
 		r.evalLazy05(x)
 	}
-	r.Finish("admission: rcodes {0,2,3 and others}, TC, lazy on/off, 0..3 records per section with TTLs from {0,1,2,...,2^32-1} incl. an OPT pseudo-record; serving: entries injected with stored/expiry times placed half a second from every boundary (elapsed k+0.5 s, expiries +-(j+0.5 s), in or out of the store), lazy on/off; bursts of 4..15 sequential or concurrent queries on a stale entry with the refresh held; one refresh held beyond the 5 s update timeout with further stale hits after it; lazy refresh outcomes: a stale entry (random records, ages, leaving the store in 2 s or 1 h, lazy_cache_ttl 2..86400) queried at T, T+0.5 s, T+1.5 s, T+2.5 s while the rest of the chain fails / yields nothing / sits behind a skip-when-answered guard (matcher or in the executable) / answers (storable or never-storable answers), first refresh optionally held with more queries arriving - stale data must keep TTL 5, start a refresh, leave on time, and be replaced once a healthy upstream answered; each scenario also replayed on the model (lazyRun); replies post-processed after the plugin returned: the real sequence/ttl plugins in the layouts main=[exec: $sub; ttl X] with sub=[cache; upstream(; ttl Y)] and [wrapper that rewrites after its continuation; cache; upstream(; ttl Y)], X/Y = fixed, min, max, min-max or an affine per-record rewrite, upstream answers of every rcode/section mix, lazy on/off; the entry is aged (same item object, times shifted) to k+0.5 s inside its lifetime and queried 1..3 times, every reply rewritten again - each fresh hit, seen by a probe directly behind the cache, must carry the TTLs the answer had when Cache.Exec returned minus k (floor 1); replayed on the model (aliasRun); one entry followed through real time; non-trivial = stored / served")
+	r.Finish("admission: rcodes {0,2,3 and others}, TC, lazy on/off, 0..3 records per section with TTLs from {0,1,2,...,2^32-1} incl. an OPT pseudo-record; serving: entries injected with stored/expiry times placed half a second from every boundary (elapsed k+0.5 s, expiries +-(j+0.5 s), in or out of the store), lazy on/off; bursts of 4..15 sequential or concurrent queries on a stale entry with the refresh held; one refresh held beyond the 5 s update timeout with further stale hits after it; lazy refresh outcomes: a stale entry (random records, ages, leaving the store in 2 s or 1 h, lazy_cache_ttl 2..86400) queried at T, T+0.5 s, T+1.5 s, T+2.5 s while the rest of the chain fails / yields nothing / sits behind a skip-when-answered guard (matcher or in the executable) / answers (storable or never-storable answers), first refresh optionally held with more queries arriving - stale data must keep TTL 5, start a refresh, leave on time, and be replaced once a healthy upstream answered; each scenario also replayed on the model (lazyRun); replies post-processed after the plugin returned: the real sequence/ttl plugins in the layouts main=[exec: $sub; ttl X] with sub=[cache; upstream(; ttl Y)] and [wrapper that rewrites after its continuation; cache; upstream(; ttl Y)], X/Y = fixed, min, max, min-max or an affine per-record rewrite, upstream answers of every rcode/section mix, lazy on/off; the entry is aged (same item object, times shifted) to k+0.5 s inside its lifetime and queried 1..3 times, every reply rewritten again - each fresh hit, seen by a probe directly behind the cache, must carry the TTLs the answer had when Cache.Exec returned minus k (floor 1); replayed on the model (aliasRun); one entry followed through real time; non-trivial = stored / served; answers stored by an instance with a seeded lazy_cache_ttl (lifetimes from the real saveRespToCache), aged by k whole seconds, moved through a dump (crafted dump + readDump / POST /load_dump; VerifInject + writeDump + readDump, GET /dump + POST /load_dump, dump_file + Close + NewCache) into an instance with the same or another lazy_cache_ttl and asked there: NXDOMAIN / SERVFAIL / empty NOERROR not served once 30 s / 5 s / min(300 s, smallest TTL) have run out, answers not served after their smallest TTL without lazy caching and only with TTL 5 with it; each run replayed on the model (reload)")
 }
